@@ -1,0 +1,81 @@
+//go:build verif
+
+// Contracts for govc (contract-based deductive verification); comments only.
+package metadata
+
+// Property C20: "... equal the sums over its pods by phase ..." - which pods count:
+// requested = pods that are Pending or Running; allocated = Running, or Pending and already
+// scheduled (first PodScheduled condition is True).
+
+// index of the first PodScheduled condition is i
+//@ define firstScheduledAt(pod *v1.Pod, i int) bool = 0 <= i && i < len(pod.Status.Conditions) && pod.Status.Conditions[i].Type == v1.PodScheduled && (forall j int :: 0 <= j && j < i ==> pod.Status.Conditions[j].Type != v1.PodScheduled)
+// the pod carries no PodScheduled condition at all
+//@ define noScheduledCond(pod *v1.Pod) bool = forall i int :: 0 <= i && i < len(pod.Status.Conditions) ==> pod.Status.Conditions[i].Type != v1.PodScheduled
+// b is the truth value of "the first PodScheduled condition of the pod exists and is True"
+// (two clauses instead of an existential: every pod has either a first PodScheduled condition or none)
+//@ define scheduledIs(pod *v1.Pod, b bool) bool = (noScheduledCond(pod) ==> !b) && (forall i int :: firstScheduledAt(pod, i) ==> b == (pod.Status.Conditions[i].Status == v1.ConditionTrue))
+
+//@ func isActivePod
+//@   props C20
+//@   requires pod != nil
+//@   pure
+//@   ensures result == (pod.Status.Phase == v1.PodPending || pod.Status.Phase == v1.PodRunning)
+//@ end
+
+//@ func isPodScheduled
+//@   props C20
+//@   requires pod != nil
+//@   pure
+//@   loop 1
+//@     invariant -1 <= rangeindex && rangeindex < len(pod.Status.Conditions)
+//@     invariant forall j int :: 0 <= j && j <= rangeindex ==> pod.Status.Conditions[j].Type != v1.PodScheduled
+//@     decreases len(pod.Status.Conditions) - rangeindex
+//@   ensures [none] noScheduledCond(pod) ==> !result
+//@   ensures [first] forall i int :: firstScheduledAt(pod, i) ==> result == (pod.Status.Conditions[i].Status == v1.ConditionTrue)
+//@ end
+
+//@ func isAllocatedPod
+//@   props C20
+//@   requires pod != nil
+//@   pure
+//@   ensures [running] pod.Status.Phase == v1.PodRunning ==> result
+//@   ensures [otherPhases] pod.Status.Phase != v1.PodRunning && pod.Status.Phase != v1.PodPending ==> !result
+//@   ensures [pendingUnscheduled] pod.Status.Phase == v1.PodPending && noScheduledCond(pod) ==> !result
+//@   ensures [pendingScheduled] pod.Status.Phase == v1.PodPending ==> (forall i int :: firstScheduledAt(pod, i) ==> result == (pod.Status.Conditions[i].Status == v1.ConditionTrue))
+//@ end
+
+// Property C20: "requested, allocated ... equal the sums over its pods": folding one pod into the
+// running totals adds the pod's lists pointwise (absent = 0); the pod's metadata is not modified.
+//@ func (*PodGroupMetadata).AddPodMetadata
+//@   props C20
+//@   requires pgm != nil && podMetadata != nil
+//@   modifies pgm.Requested, pgm.Allocated
+//@   ensures [requestedSum] forall k v1.ResourceName :: pgm.Requested[k] == old(pgm.Requested[k]) + podMetadata.RequestedResources[k]
+//@   ensures [allocatedSum] forall k v1.ResourceName :: pgm.Allocated[k] == old(pgm.Allocated[k]) + podMetadata.AllocatedResources[k]
+//@   ensures [requestedKeys] forall k v1.ResourceName :: (k in pgm.Requested) == (old(k in pgm.Requested) || (k in podMetadata.RequestedResources))
+//@   ensures [allocatedKeys] forall k v1.ResourceName :: (k in pgm.Allocated) == (old(k in pgm.Allocated) || (k in podMetadata.AllocatedResources))
+//@   ensures [preemptibleKept] pgm.Preemptible == old(pgm.Preemptible)
+//@   ensures [nonNil] pgm.Requested != nil && pgm.Allocated != nil
+//@ end
+
+// the accumulator starts from zero (empty lists, not preemptible until computed)
+//@ func NewPodGroupMetadata
+//@   props C20
+//@   fresh
+//@   ensures result != nil && result.Allocated != nil && result.Requested != nil
+//@   ensures forall k v1.ResourceName :: !(k in result.Allocated) && !(k in result.Requested)
+//@   ensures !result.Preemptible
+//@ end
+
+// Property C20: "sums over its pods by phase": a pod that is neither Pending nor Running contributes
+// nothing (empty requested and allocated lists, no error, no API call).
+// (what an active pod contributes - the fold over its containers plus GPU-sharing/DRA extraction -
+//  needs recursive sums over the heap and API-client calls: not claimed, see report)
+//@ func GetPodMetadata
+//@   props C20
+//@   requires pod != nil
+//@   modifies *
+//@   ensures [inactiveCountsNothing] old(pod.Status.Phase != v1.PodPending && pod.Status.Phase != v1.PodRunning) ==> result1 == nil && result0 != nil && (forall k v1.ResourceName :: !(k in result0.RequestedResources) && !(k in result0.AllocatedResources))
+//@   ensures [inactiveNoSideEffect] old(pod.Status.Phase != v1.PodPending && pod.Status.Phase != v1.PodRunning) ==> pod.Status.Phase == old(pod.Status.Phase)
+//@   ensures [errorMeansNoMetadata] result1 != nil ==> result0 == nil
+//@ end
